@@ -6,6 +6,7 @@ mod hostile;
 mod lexu;
 mod model;
 mod ops;
+mod peg;
 mod report;
 mod universe;
 mod props;
